@@ -204,6 +204,11 @@ func (o *Oracles) onControlEvent(w *World, e *Event) {
 			}
 		case "stop", "stopwait":
 			if e.OK && e.Kind == "RET" {
+				for cl := range c.inFlight {
+					if strings.HasPrefix(c.callNote[cl], "forcestop") {
+						c.forceDuringGraceful = true // a graceful stop was acknowledged while the force stop was under way
+					}
+				}
 				c.userStopOK, c.userStopSeq = true, e.Seq
 				c.stopDuringBackoff, c.stopKind, c.stopClient = c.statusAtCall[e.Ent] == 5, "user stop", e.Ent
 			}
@@ -432,6 +437,17 @@ func (o *Oracles) checkForceStopped(w *World) {
 	} else if !strings.Contains(errText, "force stop") {
 		w.violate("C12", "force-stop-cause-missing", fmt.Sprintf("pipeline degraded after a force stop but the stored error does not name it: %q", firstLine(errText)))
 	}
+}
+
+// stopInFlight: some stop request (of any kind) has been issued and has not returned yet.
+func (c *ctlState) stopInFlight() bool {
+	for cl := range c.inFlight {
+		n := c.callNote[cl]
+		if strings.HasPrefix(n, "stop") || strings.HasPrefix(n, "forcestop") {
+			return true
+		}
+	}
+	return false
 }
 
 func (c *ctlState) startInFlight() []string {
